@@ -646,6 +646,89 @@ func main() {
 	fmt.Println(t.get(3))
 	fmt.Println(t.get(9))
 }`},
+	{name: "defers of a helper made explicit at every exit; if-init call hoisted", expand: []string{"copyAll", "locked", "sections"}, src: `
+var trace []string
+var mu sync.Mutex
+type it struct{ n, i int }
+func (x *it) next() bool { x.i++; return x.i <= x.n }
+func (x *it) release() { trace = append(trace, fmt.Sprint("release ", x.n)) }
+func copyAll(n int, failAt int) (int, error) {
+	mu.Lock()
+	defer mu.Unlock()
+	if n < 0 {
+		return 0, errors.New("negative")
+	}
+	x := &it{n: n}
+	defer x.release()
+	copied := 0
+	for x.next() {
+		if x.i == failAt {
+			return copied, fmt.Errorf("failed at %d", x.i)
+		}
+		copied++
+	}
+	trace = append(trace, "done")
+	return copied, nil
+}
+func locked(v *int) {
+	mu.Lock()
+	defer mu.Unlock()
+	*v++
+}
+func positive(v int) bool {
+	mu.Lock()
+	defer mu.Unlock()
+	return v > 0
+}
+func sections() (int, string) {
+	mu.Lock()
+	defer mu.Unlock()
+	a := len(trace)
+	b := fmt.Sprint("sections ", a)
+	return a, b
+}
+func persist(n, failAt int) error {
+	trace = append(trace, "start")
+	cnt, label := sections() // the helper's lock is released here, not at the end of persist
+	var z int
+	locked(&z)
+	trace = append(trace, label, fmt.Sprint(cnt, z))
+	if c, err := copyAll(n, failAt); err != nil {
+		trace = append(trace, fmt.Sprint("error after ", c))
+		return err
+	} else if c > 2 {
+		trace = append(trace, "many")
+	}
+	var k int
+	locked(&k)
+	locked(&k)
+	if positive(k) {
+		locked(&k) // takes the mutex positive() has released by now
+	}
+	trace = append(trace, fmt.Sprint("ok ", k))
+	return nil
+}
+func main() {
+	fmt.Println(persist(3, 0), persist(3, 2), persist(-1, 0), persist(1, 0))
+	fmt.Println(trace)
+	mu.Lock() // still usable: every expansion released it
+	mu.Unlock()
+}`},
+	{name: "prefix helper written with make and copy", expand: []string{"marked"}, src: `
+func marked(v []byte) []byte {
+	buf := make([]byte, 2+len(v))
+	buf[0] = 'p'
+	buf[1] = 0x01
+	copy(buf[2:], v)
+	return buf
+}
+func main() {
+	v := []byte("payload")
+	a := marked(v)
+	v[0] = 'X' // the result does not share memory with the argument
+	b := marked(nil)
+	fmt.Println(string(a), len(a), b, len(marked(v)))
+}`},
 }
 
 const inlineTestHeader = `package main
